@@ -31,6 +31,7 @@ type Program struct {
 	repoPrefix string
 	initAllow map[string]bool
 	initErrs []string
+	stubFns  map[string]string // function full name -> zzvf function that replaces it
 }
 
 func (P *Program) info(fn *ssa.Function) *funcInfo {
@@ -111,6 +112,7 @@ type Exec struct {
 	steps    int64
 	maxSteps int64
 	maxVisits int
+	cutVisits int
 	initMode bool
 	frame    *Frame
 	depth    int
@@ -137,6 +139,8 @@ type Exec struct {
 	allocLen  int64
 	pool      map[string][]Value
 	clock     *Term
+	clockMin  *Term
+	sleepWeak bool
 	nclock    int
 	ghost     map[string]Value
 	havocs    map[string]bool
@@ -285,6 +289,16 @@ func (P *Program) globalObj(ex *Exec, g *ssa.Global) *Object {
 // ---------- calls ----------
 
 func (ex *Exec) callFunction(fn *ssa.Function, args []Value, bind []Value, site token.Pos) (ret Value) {
+	if len(ex.P.stubFns) > 0 && !ex.initMode {
+		if z, ok := ex.P.stubFns[fn.String()]; ok {
+			h := intrinsics["github.com/whatap/golib/zzvf."+z]
+			if h == nil {
+				ex.unsupported("stub target zzvf.%s unknown", z)
+			}
+			ex.stub(fn.String() + " (replaced by zzvf." + z + ")")
+			return h(ex, fn, nil, site)
+		}
+	}
 	if r, handled := ex.intrinsic(fn, args, site); handled {
 		return r
 	}
@@ -442,6 +456,10 @@ func (ex *Exec) runBlock(fr *Frame) {
 		fr.visits = map[*ssa.BasicBlock]int{}
 	}
 	fr.visits[b]++
+	if ex.cutVisits > 0 && fr.visits[b] > ex.cutVisits && !ex.initMode && strings.Contains(fr.fn.String(), repoMod) && !strings.Contains(fr.fn.String(), "ZZ_") {
+		ex.assumptions[fmt.Sprintf("paths on which a loop of the code under test iterates more than %d times are cut (outside the claim)", ex.cutVisits)] = true
+		ex.abort("cut", "loop bound %d in %s", ex.cutVisits, fr.fn.String())
+	}
 	if ex.maxVisits > 0 && fr.visits[b] > ex.maxVisits && !ex.initMode {
 		ex.abort("unwind", "block %d of %s visited > %d times", b.Index, fr.fn.String(), ex.maxVisits)
 	}
